@@ -323,6 +323,16 @@ type c18Shadow struct {
 	ID string `json:"id"` // shallower field wins in encoding/json
 }
 
+// slices whose element type is a named uint8: encoding/json writes them as base64 text, like []byte
+type c18Color uint8
+type c18Palette struct {
+	Colors []c18Color            `json:"colors"`
+	ByName map[string][]c18Color `json:"by_name"`
+	Opt    *[]c18Color           `json:"opt,omitempty"`
+	Grid   [][]c18Color          `json:"grid"`
+	Plain  []byte                `json:"plain"`
+}
+
 // recursion through two pointer levels, through containers of containers, and between two types
 type c18PP struct {
 	Name string  `json:"name"`
@@ -403,11 +413,17 @@ func c18Fixed(name string) (any, []any) {
 		return c18StringOpt{}, []any{c18StringOpt{N: 5, B: true, F: 1.5, S: "x"}}
 	case "shadowed":
 		return c18Shadow{}, []any{c18Shadow{c18Base: c18Base{ID: 1}, ID: "one"}}
+	case "named-byte-slices":
+		three := []c18Color{1, 2, 3}
+		return c18Palette{}, []any{c18Palette{Colors: three, ByName: map[string][]c18Color{"k": {255, 0}, "e": {}}, Opt: &three, Grid: [][]c18Color{{7}, {}}, Plain: []byte("hi")},
+			c18Palette{Colors: []c18Color{}, ByName: map[string][]c18Color{}, Grid: [][]c18Color{}, Plain: []byte{}}}
+	case "named-byte-slice-root":
+		return []c18Color{}, []any{[]c18Color{1, 2, 3}, []c18Color{}}
 	}
 	return nil, nil
 }
 
-var c18FixedNames = []string{"recursive-mutual-pointers", "recursive-mutual-pointers-2", "recursive-slice-root", "recursive-slice-field", "recursive-plain", "recursive-ptrptr", "recursive-containers", "recursive-mutual", "recursive", "embedded", "embedded-pointer", "string-option", "shadowed"}
+var c18FixedNames = []string{"recursive-mutual-pointers", "recursive-mutual-pointers-2", "recursive-slice-root", "recursive-slice-field", "recursive-plain", "recursive-ptrptr", "recursive-containers", "recursive-mutual", "recursive", "embedded", "embedded-pointer", "string-option", "shadowed", "named-byte-slices", "named-byte-slice-root"}
 
 func runC18(c *C18Case) (C18Obs, string) {
 	var o C18Obs
